@@ -63,10 +63,18 @@ def check_formula(ctx, f, case, tag):
             try:
                 import scipy.optimize._highspy._core as hc
                 with C.quiet():
-                    hg = hc._Highs(); hg.setOptionValue('output_flag', False); hg.readModel(base + '.lp'); hg.run()
+                    hg = hc._Highs(); hg.setOptionValue('output_flag', False)
+                    if any(v != 'C' for v in f.vtype):
+                        hg.setOptionValue('presolve', 'off')      # HiGHS' MILP presolve misjudges fractional bounds of integer columns (cf. repair 296dfe0)
+                    hg.readModel(base + '.lp'); hg.run()
                     hstat = str(hg.getModelStatus()); hval = float(hg.getObjectiveValue()) if 'kOptimal' in hstat else None
             except Exception as ex_:
                 hstat, hval = 'reader-unavailable:' + type(ex_).__name__, 'skip'
+            lbv, ubv = np.asarray(f.lb, dtype=float), np.asarray(f.ub, dtype=float); disc = np.array([v != 'C' for v in f.vtype])
+            frac_int_bounds = bool(np.any(disc & np.isfinite(lbv) & (lbv != np.round(lbv))) or np.any(disc & np.isfinite(ubv) & (ubv != np.round(ubv))))
+            if frac_int_bounds and hval != 'skip' and ((hval is None) != (direct is None) or (hval is not None and abs(hval - direct) > 1e-5 * (1 + abs(direct)))):
+                # this reader is not a reliable judge of such files (the Gurobi reader above is): not held against the export
+                ctx.count('lp-file:highs-reader-unreliable-on-fractional-integer-bounds'); hval = 'skip'
             if hval != 'skip' and not any(k_ in hstat for k_ in ('kTimeLimit', 'kIterationLimit', 'kUnknown', 'kNotset', 'kLoadError', 'kModelError')):
                 if (hval is None) != (direct is None):
                     ctx.hit('export-changes-solvability:highs-reader:' + tag, {"file_status": hstat, "direct": direct}, case)
